@@ -189,6 +189,23 @@ def run(ctx):
              "spends": spends, "std": True}
         c["line"] = condgen.case_line(c, consts_hex, set(g.keys))
         vcases.append(c)
+    # bundles WITHOUT any AGG_SIG condition (the verifier gets an empty pair list)
+    for k_ in range(6 if tier == "quick" else 60):
+        a_ = g.new_spend(parent=vrng.bytes(32), amount=1000 + k_)
+        a_["budget"] = []
+        if k_ % 3 == 0:
+            g.add_raw(a_, "CREATE_COIN", [vrng.choice(g.phs), canon(k_)])
+        elif k_ % 3 == 1:
+            g.add_raw(a_, "REMARK", [])
+        from clvm import tree_hash, to_list
+        a_["ph"] = tree_hash((b"\x01", to_list(a_["conds"])))
+        a_["id"] = condgen.coin_id(a_["parent"], a_["ph"], a_["amount"])
+        sp_ = [a_]
+        fl = [0, 0x20000 | 0x80000, 0x800000][k_ % 3]
+        c = {"tree": g.bundle_tree(sp_), "flags": fl, "visitor": 1, "max_cost": 11000000000, "clvm_cost": 0,
+             "tags": [("NO_AGG_SIG", "vcs-empty")], "scenario": "vcs", "keys": [], "spends": sp_, "std": True}
+        c["line"] = condgen.case_line(c, consts_hex, set(g.keys))
+        vcases.append(c)
     vmodel = C.run_lines(C.VRUN(UNIT), [c["line"] for c in vcases])
     vruns = []
     for c, m in zip(vcases, vmodel):
@@ -207,6 +224,9 @@ def run(ctx):
         def req(p):
             return "cond.aggsign %s" % (",".join("%d:%s" % (keyidx[k], m_.hex() if m_ else "-") for k, m_ in p) if p else "-")
         vruns.append((c, tree_hex, req(pairs), "accept"))
+        if not pairs:
+            # nothing to sign: only the identity signature is valid; any other signature must be rejected
+            vruns.append((c, tree_hex, req([(g.keys[0], b"stray")]), "stray-signature"))
         if pairs:
             j = vrng.below(len(pairs))
             vruns.append((c, tree_hex, req(pairs[:j] + pairs[j + 1:]), "drop"))       # one pair (possibly one of two equal ones) missing
